@@ -15,6 +15,7 @@ type Profile struct {
 	Join, LeaveTo                       int
 	Tick, Liveness                      int
 	SweepEarly, SweepLate, SweepUpto    int
+	SweepDue                            int
 	Crash                               int
 	EpAdd, EpRemove                     int
 	Start                               int
@@ -136,7 +137,7 @@ func (s *Sim) RandomStep(p *Profile) bool {
 		{p.Upsert, "upsert"}, {p.Delete, "delete"}, {p.Compact, "compact"}, {p.LeaveLocal, "leaveLocal"},
 		{p.Gossip, "gossip"}, {p.Join, "join"}, {p.LeaveTo, "leaveTo"},
 		{p.Tick, "tick"}, {p.Liveness, "liveness"},
-		{p.SweepEarly, "sweepEarly"}, {p.SweepLate, "sweepLate"}, {p.SweepUpto, "sweepUpto"},
+		{p.SweepEarly, "sweepEarly"}, {p.SweepDue, "sweepDue"}, {p.SweepLate, "sweepLate"}, {p.SweepUpto, "sweepUpto"},
 		{p.Crash, "crash"}, {p.EpAdd, "epAdd"}, {p.EpRemove, "epRemove"}, {p.Start, "start"},
 	}
 	if len(s.Inflight) > 0 {
@@ -228,6 +229,8 @@ func (s *Sim) RandomStep(p *Profile) bool {
 			s.Apply(Action{Kind: "liveness", Node: n.Idx})
 		case "sweepEarly":
 			s.Apply(Action{Kind: "sweep", Node: n.Idx, Mode: "early"})
+		case "sweepDue":
+			s.Apply(Action{Kind: "sweep", Node: n.Idx, Mode: "due"})
 		case "sweepLate":
 			s.Apply(Action{Kind: "sweep", Node: n.Idx, Mode: "late"})
 		case "sweepUpto":
